@@ -133,6 +133,9 @@ HASH_ITER_METHODS = {"iter", "iter_mut", "keys", "values", "values_mut", "into_k
 ADAPTERS = {"map", "filter", "filter_map", "enumerate", "chain", "zip", "take", "skip", "peekable", "cloned",
             "copied", "flat_map", "flatten", "inspect", "take_while", "skip_while", "map_while", "scan", "step_by",
             "by_ref", "fuse", "rev", "into_iter"}
+# adapters whose *result* depends on the order of the underlying iteration even if it is sorted later
+ORDER_SENSITIVE = {"take", "skip", "take_while", "skip_while", "map_while", "scan", "step_by", "enumerate", "zip", "nth",
+                   "last", "next", "position", "find", "find_map", "rev", "peekable", "chain", "fold", "reduce", "try_fold"}
 REDUCERS = {"count", "sum", "product", "all", "any", "min", "max", "len", "is_empty"}
 SORTS = re.compile(r"slice::<impl \[T\]>::sort(_unstable)?(_by|_by_key|_by_cached_key)?$")
 
@@ -213,7 +216,14 @@ def _d2_follow(fn, bb, t):
             is_iter = c and c.get("trait") in ("std::iter::Iterator", "std::iter::IntoIterator",
                                                "std::iter::DoubleEndedIterator", "std::iter::ExactSizeIterator")
             dst = tt["dest"]["l"]
-            if is_iter and meth in ADAPTERS:
+            if is_iter and meth in ORDER_SENSITIVE:
+                msg = "`%s` selects or numbers elements by their position in hash order (line %d): sorting afterwards cannot undo it" % (meth, tt["line"])
+                if msg not in verdict:
+                    verdict.append(msg)
+                if dst not in tainted:
+                    tainted.add(dst)
+                    changed = True
+            elif is_iter and meth in ADAPTERS:
                 if dst not in tainted:
                     tainted.add(dst)
                     changed = True
